@@ -217,3 +217,48 @@ Proof.
   assert (good (formal_argument TY)) by (unfold formal_argument; good_auto).
   unfold template. good_auto.
 Qed.
+
+(* ---- what the declaration parsers return is the source text itself ---- *)
+Local Open Scope list_scope.
+Lemma map_res_to_str_inv (p : parser bytes) i a r :
+  map_res p to_str i = Ok a r -> p i = Ok a r /\ utf8_valid a = true.
+Proof.
+  unfold map_res, to_str. destruct (p i) as [a0 r0|e|k]; try discriminate.
+  destruct (utf8_valid a0) eqn:V; [|discriminate]. intros [= <- <-]. auto.
+Qed.
+
+Lemma formal_argument_slice TY : (forall x, good (TY x)) -> forall i a r,
+  formal_argument TY i = Ok a r -> i = a ++ r /\ utf8_valid a = true.
+Proof.
+  intros HTY i a r H. unfold formal_argument in H. apply map_res_to_str_inv in H. destruct H as [H V]. split; [|exact V].
+  eapply recognize_slice; [|exact H].
+  pose proof good_spacelike. pose proof good_rust_name. assert (good (fun j => TY TyExpr j)) by apply good_eta, HTY.
+  assert (G : good (pair (pair (pair (pair rust_name spacelike) (char 58)) spacelike) (fun j => TY TyExpr j))) by good_auto.
+  apply G.
+Qed.
+
+Definition use_line : parser bytes :=
+  delimited (tag (b "@")) (map_res (is_not (b ";()")) to_str) (terminated (tag (b ";")) spacelike).
+Lemma tag_inv t i a r : tag t i = Ok a r -> a = t /\ i = t ++ r.
+Proof.
+  unfold tag. destruct (strip_prefix t i) eqn:S; [|discriminate]. intros [= <- <-]. split; [reflexivity|now apply strip_prefix_sfx].
+Qed.
+Lemma use_line_slice i l r : use_line i = Ok l r ->
+  exists ws, i = b "@" ++ l ++ b ";" ++ ws ++ r /\ utf8_valid l = true /\ l <> [] /\ Forall (fun c => mem c (b ";()") = false) l.
+Proof.
+  unfold use_line, delimited, preceded, terminated, bind, pmap.
+  destruct (tag (b "@") i) as [t r0|e|k] eqn:E0; try discriminate.
+  destruct (map_res (is_not (b ";()")) to_str r0) as [l0 r1|e|k] eqn:E1; try discriminate.
+  destruct (tag (b ";") r1) as [t2 r2|e|k] eqn:E2; try discriminate.
+  destruct (spacelike r2) as [u r3|e|k] eqn:E3; try discriminate. intros [= <- <-].
+  apply map_res_to_str_inv in E1. destruct E1 as [E1 V].
+  destruct (tag_inv _ _ _ _ E0) as [_ H0]. destruct (tag_inv _ _ _ _ E2) as [_ H2].
+  destruct (g_sfx good_spacelike _ _ _ E3) as [ws Hws].
+  unfold is_not, take_while1 in E1. pose proof (span_app (fun c => negb (mem c (b ";()"))) r0) as SA.
+  assert (SP : Forall (fun c => mem c (b ";()") = false) (fst (span (fun c => negb (mem c (b ";()"))) r0))).
+  { eapply Forall_impl; [|apply span_fst_all]. cbv beta. intros c Hc. now apply negb_true_iff in Hc. }
+  destruct (span (fun c => negb (mem c (b ";()"))) r0) as [[|x a'] rr]; [discriminate|].
+  cbn [fst snd] in *. assert (l0 = x :: a' /\ r1 = rr) as [-> ->] by (inversion E1; auto).
+  exists ws. split; [|split; [exact V|split; [discriminate|exact SP]]].
+  rewrite H0, SA, H2, Hws. rewrite <- ?app_assoc. reflexivity.
+Qed.
